@@ -468,7 +468,9 @@ def finish(mod, modname, prop, args, seed, cases, results, t0, extra=()):
         nsearch = case.search
         # half of the witness-search runs draw lexically special doubles - except in cases that carry a recorded known finding
         # (those fail an obligation on the unchanged tree by definition; their search stays with ordinary magnitudes)
-        special_ok = not any(fnmatch.fnmatch(cname, k.get("case", "*")) for k in known)
+        # and only where the solver REFUTED an obligation (or the executor could not follow the code): an obligation that is
+        # merely undecided must not be "refuted" by rounding at extreme magnitudes
+        special_ok = not any(fnmatch.fnmatch(cname, k.get("case", "*")) for k in known) and any(rec.get("status") in ("refuted", "unsupported", "concrete-failure") for rec in recs)
         cjobs += [{"case": cname, "inputs": None, "seed": seed * 100000 + 7919 + i, "special": bool(i % 2) and special_ok} for i in range(nsearch)]
         try:
             cres = run_concrete(modname, args.tier, cjobs)
